@@ -8,6 +8,7 @@ import (
 	"os"
 	"os/exec"
 	"path/filepath"
+	"runtime/debug"
 	"sort"
 	"strings"
 	"sync"
@@ -32,6 +33,14 @@ func workerMain(kinds, prop string, seed uint64) {
 	out := bufio.NewWriterSize(os.Stdout, 1<<16)
 	defer out.Flush()
 	r := newRng(seed)
+	if prop == "C01" || prop == "C02" {
+		// totality includes "does not exhaust the goroutine stack however long the
+		// input is": with the default 1 GB limit a recursion that is linear in the
+		// input only dies on inputs of tens of megabytes; with a 1 MB limit the
+		// 64 KB - 1 MB repetitions of the long-input stage expose it.  Code whose
+		// recursion depth is bounded uses a few KB.
+		debug.SetMaxStack(1 << 20)
+	}
 	for {
 		line, err := in.ReadString('\n')
 		line = strings.TrimSpace(line)
